@@ -16,9 +16,12 @@
 (*            that ends a file on the replica                               *)
 (*   hasRead, handles, execFree, chkFree   after Store.Close                *)
 (* Clauses: C01 (acknowledged => restore equals source), C02 (every TXID    *)
-(* restores to a committed state, in order), C06 (levels contiguous), C07   *)
-(* (latest restorable, a snapshot remains, level 0 one run), C12 (Close     *)
-(* returns, nothing leaked).                                                *)
+(* restores to a committed state, in order), C05 (catches up once storage   *)
+(* faults stop), C06 (levels contiguous from the retention floor upwards),  *)
+(* C07 (latest restorable, a snapshot remains, level 0 one run), C12 (Close *)
+(* returns, nothing leaked), C14 (same application-visible content as the   *)
+(* control run of the same history without litestream).  A DaemonStart      *)
+(* after a DaemonStop is a restart of the process (new DB object).          *)
 (***************************************************************************)
 EXTENDS Integers, Sequences, FiniteSets, TLC, Json
 
